@@ -3,7 +3,7 @@
    golden-section search meets for unimodal Lipschitz slices) the result is no worse than the start + slack. *)
 From SV Require Import Alg.Enum Alg.Enum_proofs Alg.CoordDesc Alg.Golden Alg.Golden_proofs.
 From Coq Require Import Reals Lra Lia.
-Open Scope R_scope.
+Local Open Scope R_scope.
 
 Definition rleb (x y : R) : bool := if Rle_dec x y then true else false.
 Lemma rleb_true x y : rleb x y = true <-> x <= y.
